@@ -159,7 +159,11 @@ func NewRun(id, level, rule string) *Run {
 		distinct: map[string]struct{}{}, counters: map[string]int64{}, maxSamples: 5,
 		knownHits: map[string]int{}, extra: map[string]interface{}{}, reported: map[string]bool{}, maxReports: 10}
 	var kf knownFile
-	if b, err := os.ReadFile(filepath.Join(VerifDir(), "known_findings.json")); err == nil {
+	home := os.Getenv("VERIF_HOME")
+	if home == "" {
+		home = VerifDir()
+	}
+	if b, err := os.ReadFile(filepath.Join(home, "known_findings.json")); err == nil {
 		if err := json.Unmarshal(b, &kf); err != nil {
 			fmt.Fprintf(os.Stderr, "known_findings.json unreadable: %v\n", err)
 			os.Exit(3)
